@@ -1,12 +1,14 @@
 package main
 
 import (
+	"verif.local/mc/harness/c18"
 	"verif.local/mc/harness/c07"
 	"verif.local/mc/harness/c17"
 	"verif.local/mc/harness/c19"
 )
 
 func init() {
+	register("C18", "model_checking", c18.Run)
 	register("C07", "exploration", c07.Run)
 	register("C17", "exploration", c17.Run)
 	register("C19", "exploration", c19.Run)
